@@ -668,11 +668,29 @@ Spec == Init /\ [][Next /\ GhostNext /\ UNCHANGED hist]_vars
 
 \* E1 properties -------------------------------------------------------------------------------------------
 KnownLabels == {"KNOWN.F10", "KNOWN.F2", "KNOWN.F1"}
-\* safety: every step satisfies every step formula of ClusterProps (C01 C02 C07 C13 C16)
+\* safety: every step satisfies the step formulas of ClusterProps, one action property per listed property
+LabelsC01 == {"C01.ElectionRule", "C01.MasterOnlyAuto"}
+LabelsC02 == {"C02.OnGraph", "C02.NeedsMaster", "C02.SlaveAfterMaster"}
+LabelsC07 == {"C07.InstanceGraph", "C07.LocalIsolated", "C07.Accuracy", "C07.Fence", "C07.Completeness",
+              "C07.ViewConsistent"}
+LabelsC13 == {"C13.Airtight", "C13.NoTraffic"}
+LabelsC16 == {"C16.NoInternalError"}
+StepsC01 == [][P!StepFailures(g, Rec) \cap LabelsC01 = {}]_vars
+StepsC02 == [][P!StepFailures(g, Rec) \cap LabelsC02 = {}]_vars
+StepsC07 == [][P!StepFailures(g, Rec) \cap LabelsC07 = {}]_vars
+StepsC13 == [][P!StepFailures(g, Rec) \cap LabelsC13 = {}]_vars
+StepsC16 == [][P!StepFailures(g, Rec) \cap LabelsC16 = {}]_vars
 StepsOK == [][P!StepFailures(g, Rec) \subseteq KnownLabels]_vars
 \* C01 / C08: once the cluster has been calm for K rounds the terminal classification admits no failure
 CONSTANT K
-Terminal == calm >= K => P!TerminalFailures(Obs(alive, inc, fsm, master, inst, tick), ended) \subseteq KnownLabels
+TerminalNow == P!TerminalFailures(Obs(alive, inc, fsm, master, inst, tick), ended)
+Terminal == calm >= K => TerminalNow \subseteq KnownLabels
+TerminalC01 == calm >= K => "C01.Convergence" \notin TerminalNow
+TerminalC08 == calm >= K => "C08.Progress" \notin TerminalNow
+\* C08: a decision refused by the transition table is not refused for ever (outside the known classes)
+NoRefusedForever == \A i \in Inst : (alive[i] /\ refused[i] >= 3) => P!Known_F1(Obs(alive, inc, fsm, master, inst, tick))
+\* C16 in the model: no partial operation applied outside its domain
+NoErr == \A i \in Inst : ~err[i]
 \* vacuity witnesses (expected to be VIOLATED when listed as invariants: they show the antecedents are reachable)
 WitnessCalm == calm < K
 WitnessOperation == ~(\E i \in Inst : alive[i] /\ fsm[i] = "OPERATION")
